@@ -255,6 +255,12 @@ func (c *Conn) Write(b []byte) (int, error) {
 	var ferr error
 	if f != nil {
 		n := f.Partial
+		if n < 0 { // negative: counted from the end
+			n = len(b) + n
+			if n < 0 {
+				n = 0
+			}
+		}
 		if n > len(b) {
 			n = len(b)
 		}
